@@ -375,8 +375,10 @@ func main() {
 		docs = append(docs, []int{i})
 	}
 	// pairs: quick = all pairs over a core subset + every component paired with the realm deployment; thorough = all pairs
-	core := []int{compIdx("bal-repeated-address"), compIdx("bal-vesting-continuous"), compIdx("tx-addpkg-realm"), compIdx("tx-call-gen"),
-		compIdx("tx-failing-typecheck"), compIdx("realm-params"), compIdx("initial-height-5")}
+	core := []int{compIdx("bal-repeated-address"), compIdx("tx-addpkg-realm"), compIdx("tx-call-gen"), compIdx("realm-params"), compIdx("initial-height-5")}
+	if r.Thorough() {
+		core = append(core, compIdx("bal-vesting-continuous"), compIdx("tx-failing-typecheck"))
+	}
 	inCore := map[int]bool{}
 	for _, c := range core {
 		inCore[c] = true
@@ -423,6 +425,6 @@ func main() {
 		"genesis txs are unsigned (gnoland.TestAppOptions: SkipGenesisSigVerification) and no validators are declared; the documents are written with GenesisDoc.SaveAs (amino JSON)",
 		"rejection = document validation error, loader error, ResponseInitChain.Error or a panic of InitChain/Commit",
 	}
-	r.Finish("genesis documents = baseline, every component alone, pairs (quick: over a 7-component core; thorough: all; both orders for tx components), all valid components together, all 6 orders of a 3-tx subset (thorough: + all core triples); each applied 5 times: in-memory object x2, JSON file via GenesisDocFromFile, streamed via LoadStreamingGenesisDoc x2 (cold and warm cache); distinct = distinct (document, outcome class)",
+	r.Finish("genesis documents = baseline, every component alone, pairs (quick: over a 5-component core; thorough: all; both orders for tx components), all valid components together, all 6 orders of a 3-tx subset (thorough: + all core triples); each applied 5 times: in-memory object x2, JSON file via GenesisDocFromFile, streamed via LoadStreamingGenesisDoc x2 (cold and warm cache); distinct = distinct (document, outcome class)",
 		true, map[string]any{"documents": len(docs), "applications": nApps.Load(), "representations": 3})
 }
